@@ -97,6 +97,8 @@ def main() -> int:
         merged["inconclusive"] += d["inconclusive"]
         merged["harness_errors"] += d["harness_errors"]
         merged["evaluations"] += d["evaluations"]
+        for f_, ls in d.get("reach", {}).items():
+            merged.setdefault("reach", {}).setdefault(f_, set()).update(ls)
     # ---- soak workload: the repository's own tests under the monitors (thorough tier, properties that opt in) ----
     if tier == "thorough" and only is None and getattr(mod, "SOAK", False):
         root = bootstrap.repo_root()
@@ -158,6 +160,14 @@ def main() -> int:
     if only is None and a.cases is None:
         if unmet:
             merged["inconclusive"].append(f"monitor evaluation floors not reached: {unmet}")
+    anchor_reach, reach_missing = [], []
+    if "reach" in merged:
+        from vmon import reach
+        anchor_reach, reach_missing = reach.summarise(pid, {k: sorted(v) for k, v in merged["reach"].items()})
+        optional = set(getattr(mod, "REACH_OPTIONAL", ()))
+        reach_missing = [m for m in reach_missing if m not in optional]
+        if reach_missing and only is None and a.cases is None:
+            merged["inconclusive"].append(f"anchored mechanisms never entered by the workload: {reach_missing}")
     if merged["harness_errors"]:
         merged["inconclusive"].append(
             f"{len(merged['harness_errors'])} harness errors, first: {merged['harness_errors'][0][-600:]}")
@@ -177,6 +187,7 @@ def main() -> int:
         "violations_by_clause": {k[10:]: v for k, v in merged["counters"].items()
                                  if k.startswith("violation:")},
         "known_findings_hit": sorted(known_hit),
+        "anchor_reach": anchor_reach,
         "inconclusive": merged["inconclusive"][:10],
         "cases_requested": ncases, "shards": nshards,
         "verdict": {0: "held on what was observed", 1: "violated", 2: "inconclusive"}[rc],
@@ -196,6 +207,9 @@ def main() -> int:
         print(f"   {k}={v}")
     if cov["gray_zone"]:
         print("   gray:", cov["gray_zone"])
+    for ar in anchor_reach:
+        print(f"   reach: {ar['mechanism'][:70]}: {ar['functions_entered']}/{ar['functions_resolved']} functions, "
+              f"{ar['lines_hit']}/{ar['lines_total']} lines")
     for ln in lines:
         print(ln)
     return rc
